@@ -249,7 +249,7 @@ def run(tier, replay_file=None):
     tmf = z3.Bool('to_map_fails')
     # the location either opaque (any text; legality = an uninterpreted predicate) or as bytes (<= NLOC ASCII bytes; legality = the http
     # crate's byte rule), so that a hand-written validity test that differs from HeaderValue's at some byte is seen
-    NLOC = 2 if tier == 'quick' else 3
+    NLOC = 2 if tier == 'quick' else 4
     locs_ = [sstr('location')] + [SB([z3.BitVec(f'loc{i}', 8) for i in range(n_)]) for n_ in range(NLOC + 1)]
     for fn, code in REDIRECTS.items():
       for loc in locs_:
